@@ -1,7 +1,9 @@
 From Coq Require Import Extraction ExtrOcamlBasic NArith ZArith.
-From Oxia.Cluster Require Import Model CodeModel.
+From Oxia.Cluster Require Import Model CodeModel DiskLoss.
 (* step_code = the protocol as the code runs it (one Truncate round per Attach); attach_consistent = the hypothesis of
    the proved theorem, evaluated on every Attach of every real trace.
+   xstep = step_code + DiskLoss n (the node comes back with nothing); traces without a disk loss go through exactly
+   step_code (DiskLoss.xrun_embeds).
    N.succ / Z.opp are extracted only because ocaml/conv.ml.in (shared) mentions the types positive, n and z. *)
 Extraction "cluster_model.ml" init step step_code run_code attach_consistent consistent_run acked_survive_b exposes node0
-  attach_decide lhead last_term N.succ Z.opp.
+  attach_decide lhead last_term xstep xrun N.succ Z.opp.
